@@ -36,6 +36,13 @@ def run_case(cs):
     for n in rng.sample(["a.tmp", "b.bak", "Thumbs.db", "ax.dat", "qfile", "skipme", ".DS_Store"], rng.randint(0, 3)):
         par = rng.choice(dirs)
         tree[(par + "/" if par else "") + n] = world.gen_bytes(rng)
+    big = rng.random() < 0.03
+    if big:
+        # a manifest of well over 32 KiB (long names, many records)
+        for i in range(rng.randint(90, 220)):
+            tree["bulk/%03d-%s" % (i, world.gen_name(rng, rng.choice(["long", "uni", "space"])))] = bytes([i % 256]) * (i % 5)
+        tree["bulk"] = None
+        cs.count("big_trees")
     d = cs.dir()
     root = os.path.join(d, world.root_name(rng, "R "))
     world.write_tree(root, tree)
@@ -76,6 +83,12 @@ def run_case(cs):
             world.mutate(rng, root, tree, rng.choice(["add_file", "add_file", "delete_file", "touch"]))
     if not child_first:
         seal_children()
+    if rng.random() < 0.25:
+        # links to regular files are added after the edit phase (an edit through a link would change its target too)
+        os.makedirs(os.path.join(d, "outside"), exist_ok=True)
+        t3 = {k: v for k, v in world.read_tree(root).items()}
+        if world.add_file_symlinks(rng, root, t3, rng.randint(1, 2), outside=os.path.join(d, "outside")):
+            cs.count("trees_with_file_symlinks")
     hists = world.find_histories(root)
     mode = "sf" if rng.random() < 0.3 and any(v is not None for v in tree.values()) else "folder"
     formats = world.gen_formats(rng, repeat=True)
